@@ -50,6 +50,36 @@ def _run_z3(text, timeout_ms, seed=0):
     return ("unknown", s.reason_unknown(), dt)
 
 
+Z3_CLI = os.path.join(os.path.dirname(os.path.dirname(os.path.abspath(__file__))), "build", "venv", "bin", "z3")
+
+
+def _run_z3_cli(text, timeout_ms, seed=0):
+    """z3 as a separate process with a hard time limit: queries over the theory of sequences can ignore the soft
+    timeout of the in-process API."""
+    t0 = time.time()
+    if not os.path.exists(Z3_CLI):
+        return _run_z3(text, timeout_ms, seed)
+    with tempfile.NamedTemporaryFile("w", suffix=".smt2", delete=False) as f:
+        f.write(text + "\n(get-model)\n")
+        path = f.name
+    secs = max(1, int(timeout_ms / 1000 + 0.999))
+    try:
+        p = subprocess.run([Z3_CLI, "-smt2", "-T:%d" % secs, "smt.random_seed=%d" % seed, path], capture_output=True, text=True,
+                           timeout=secs + 10)
+        out = p.stdout.strip().splitlines()
+        res = out[0].strip() if out else "unknown"
+        info = "\n".join(out[1:60]) if res == "sat" else (out[0] if out else "")
+    except Exception as e:
+        res, info = "unknown", "killed after hard time limit (%s)" % type(e).__name__
+    finally:
+        os.unlink(path)
+    return (res if res in ("sat", "unsat") else "unknown", info, time.time() - t0)
+
+
+def _z3(text, timeout_ms, seed=0):
+    return _run_z3_cli(text, timeout_ms, seed) if "seq." in text else _run_z3(text, timeout_ms, seed)
+
+
 def _run_cvc5(text, timeout_ms):
     t0 = time.time()
     exe = "/usr/bin/cvc5"
@@ -81,7 +111,7 @@ def _job(args):
         if r in ("sat", "unsat"):
             return (name, r, info, total, "cvc5")
     quick = min(timeout_ms, 4000)
-    r, info, dt = _run_z3(text, quick)
+    r, info, dt = _z3(text, quick)
     total += dt
     if r in ("sat", "unsat"):
         return (name, r, info, total, "z3")
@@ -92,7 +122,7 @@ def _job(args):
         total += dt2
         if r2 in ("sat", "unsat"):
             return (name, r2, info2, total, "cvc5")
-    r3, info3, dt3 = _run_z3(text, timeout_ms, 0)
+    r3, info3, dt3 = _z3(text, timeout_ms, 0)
     total += dt3
     if r3 in ("sat", "unsat"):
         return (name, r3, info3, total, "z3")
